@@ -141,6 +141,8 @@ def leaf_spec(l, sp=None):
         kw = {k: arg_spec(v, sp, 1) for k, v in l.kwargs.items()}
         if sp.coin("arg-shape"):
             val = [kw[n] for n in names if n in kw]
+        elif sp.coin("kw-order"):
+            val = {k: kw[k] for k in reversed(list(kw))}  # keyword mappings carry no order
         else:
             val = kw
     elif sg == "varpos":
